@@ -31,6 +31,11 @@ def main():
         return "k%d" % i + "".join("\t" + COLS[k % 10] for k in range(i % 21))
     for k, c in enumerate(cases):
         c["dump"] = os.path.join(run.wd, "f%d.bin" % k)
+        if k % 5 == 2 and c["opts"].get("zmode") == "manual":
+            c["opts"]["maxz"] = [0, 1, 2][(k // 5) % 3]     # max_zooms smaller than the manual list (the list decides)
+        if k % 4 == 1 and not c.get("long"):
+            # the items go through a text file and the real line reader / parser: LF or CRLF, last line terminated or not
+            c["src"], c["eol"], c["final_nl"] = "text", ["lf", "crlf"][(k // 4) % 2], (k // 8) % 2
         if c["kind"] == "bb" and k % 3 == 0:
             c["restmode"] = "cols"     # multi-byte extra columns: byte lengths differ from character counts
     obs = run_harness("bbi", cases, run.wd, hang_timeout=20)
